@@ -704,6 +704,7 @@ func c17Case(c *core.Case) {
 			op.prepare(ctxs)
 		}
 	}
+	var notRepeatable map[int]bool
 	// solo runs (before the storm), twice: the call must be repeatable alone
 	for i := 0; i < G; i++ {
 		expected[i] = make([]string, len(p.ops))
@@ -711,9 +712,14 @@ func c17Case(c *core.Case) {
 			expected[i][k] = op.run(ctxs[i])
 			c.Evals(1)
 			if again := op.run(ctxs[i]); again != expected[i][k] {
-				c.Count("skipped:not-repeatable-alone")
-				c.Inconclusive("a call is not repeatable when run alone (judged by other properties)")
-				return
+				// the storm still runs (for the race detector); the results of
+				// this operation are not compared
+				if notRepeatable == nil {
+					notRepeatable = map[int]bool{}
+					c.Count("not-repeatable-alone(results not compared)")
+					c.Inconclusive("a call is not repeatable when run alone (judged by other properties); its storm is watched by the race detector only")
+				}
+				notRepeatable[k] = true
 			}
 		}
 	}
@@ -766,7 +772,7 @@ func c17Case(c *core.Case) {
 				}
 				got := call(ctxs[i])
 				inCall.Add(-1)
-				if got != expected[i][k] {
+				if got != expected[i][k] && !notRepeatable[k] {
 					mmMu.Lock()
 					if len(mms) < 4 {
 						mms = append(mms, mismatch{i, k, got, expected[i][k]})
